@@ -234,5 +234,10 @@ func runC01(tier string, seed uint64, o *Out) error {
 	if err := winSQLCases(o, "C01", rng, nsql, false); err != nil {
 		return err
 	}
+	npt := 8
+	if tier == "thorough" {
+		npt = 48
+	}
+	ptSQLCases(o, rng, npt)
 	return nil
 }
